@@ -30,7 +30,11 @@ RULE = (
     'segmentations, 2-3 alternatives, maximum_number 0..5) alone and mixed with ordinary catalogs; plus fixed directed '
     'shapes. Configuration spaces <= 256 are enumerated exhaustively by every structural monitor; values are compared '
     'for every configuration of spaces up to the tier cap (quick 48, thorough 256), else for a seeded sample of that '
-    'size. A case is non-trivial when its space has >= 2 configurations and at least one configuration of it was '
+    'size. Histories: per case 2 (quick) / 3 (thorough) seeded sequences of 3-12 requests (configure_catalogs of a new / an '
+    'earlier / the last configuration, select_expression, direct Controller.set_index/set_name/modify_controller/'
+    'reset_selection, operators of the own and of a second CentralController, refused configurations, a second formula '
+    'governed by the same Controller objects), judged after every step against a plain-dict model of the controller state. '
+    'A case is non-trivial when its space has >= 2 configurations and at least one configuration of it was '
     'accepted by the conditioning filter of the reference evaluator and compared by value; distinct = hash of '
     '(AST with choice nodes, shared sub-trees, helper declarations, data, parameters)'
 )
@@ -49,6 +53,7 @@ CASE_TIMEOUT = 300
 EVAL_CAP = {'quick': 48, 'thorough': 256}
 GRAD_CAP = {'quick': 6, 'thorough': 24}
 WALK = 200
+HIST_SEQ = {'quick': 2, 'thorough': 3}  # histories per case, 3-12 steps each
 
 N = {
     'quick': {'random': 170, 'shared': 40, 'nested': 40, 'toplevel': 12, 'seg': 30, 'gen': 30, 'genseg': 36, 'mixed': 30},
@@ -544,7 +549,7 @@ def _run_case(case, rec):
             continue
         rec.ev()
         compared += 1
-        good[key] = True
+        good[key] = (ref, rtol, atol)
         rec.c('values_compared_with_reference')
         for o in ops:
             rec.c('op_' + o)
@@ -822,6 +827,242 @@ def _run_case(case, rec):
                 break
         if done:
             break
+
+    # ---- H. histories: the state of the controllers after ANY sequence of requests ---------------
+    # model = controller name -> alternative (plain dict, updated by the documented effect of each step); after every
+    # step the catalogs (and, when they are looked at, current_configuration and the value) must be at the model state.
+    # current_configuration() is not consulted after every step on purpose: reading the configuration is itself a
+    # request to the central controller and could repair what the previous step broke.
+    from biogeme.expressions import Numeric, NamedExpression
+
+    ctrl_objs = {}
+    for c in cats:
+        ctrl_objs.setdefault(c['ctrl'], c['obj'].controlled_by)
+    cnames = sorted(ctrls)
+    refcache = dict(good)
+
+    def reference_for(key):
+        if key not in refcache:
+            r = M.resolve(spec, ids[key])
+            bvv = {k: v[0] for k, v in r['betas'].items()}
+            j = evalast.judge(r['ast'], r['data'], bvv, r['shared'])
+            refcache[key] = (j['value'],) + _tol(exprs.ops_in(r['ast'], r['shared'])) if j['ok'] else None
+        return refcache[key]
+
+    def clamp_move(name, cur, step, circular):
+        specs = ctrls[name]
+        i = specs.index(cur) + step
+        return specs[i % len(specs)] if circular else specs[min(max(i, 0), len(specs) - 1)]
+
+    for sq in range(HIST_SEQ[tier]):
+        hr = random.Random(f'c16hist/{case.get("seed")}/{case.get("i")}/{case.get("k")}/{case["mode"]}/{sq}')
+        try:
+            model = dict(ids[hr.choice(order)])
+            expr.configure_catalogs(Configuration.from_dict(model))
+            # a second formula whose catalogs are governed by (some of) the same Controller objects; its value
+            # encodes the alternative of each of its controllers: sum_j (index_j + 1) * 10**j
+            K2 = hr.sample(cnames, hr.randint(1, len(cnames)))
+            cats2 = []
+            f2 = Numeric(0.0)
+            for jx, k in enumerate(K2):
+                c2 = Catalog(f'h2_{sq}_{jx}', [NamedExpression(sn, Numeric(float((ix + 1) * 10 ** jx)))
+                                              for ix, sn in enumerate(ctrls[k])], controlled_by=ctrl_objs[k])
+                cats2.append((c2, k))
+                f2 = f2 + c2
+            cc2 = CentralController(expr, maximum_number_of_configurations=1000000)
+        except BaseException as e:  # noqa
+            viol(f'history-setup-raises-{type(e).__name__}', f'{type(e).__name__}: {e}')
+            break
+        requested = [dict(model)]
+        last = {'f1': dict(model), 'f2': None}
+        observe = hr.choice(['always', 'never', 'random', 'random'])
+        L = hr.randint(3, 12)
+        trace = [('configure', M.config_id(model))]
+        foreign = False  # the previous step moved controllers by another path than expr.configure_catalogs
+        rec.c('histories_run')
+        dead = False
+        for t in range(L):
+            kind = hr.choices(['configure', 'select', 'direct', 'operator', 'failed', 'second'], [30, 12, 15, 15, 10, 18])[0]
+            if foreign and hr.random() < 0.6:
+                kind = 'configure-again'
+            try:
+                if kind in ('configure', 'configure-again'):
+                    if kind == 'configure-again':
+                        target = dict(last['f1'])
+                    elif hr.random() < 0.5:
+                        target = dict(hr.choice(requested))
+                        kind = 'configure-earlier'
+                    else:
+                        target = dict(ids[hr.choice(order)])
+                    items = list(target.items())
+                    hr.shuffle(items)
+                    expr.configure_catalogs(Configuration.from_dict(dict(items)))
+                    model = dict(target)
+                    requested.append(dict(target))
+                    last['f1'] = dict(target)
+                    trace.append((kind, M.config_id(target)))
+                    foreign = False
+                elif kind == 'select':
+                    k = hr.choice(cnames)
+                    idx = hr.randrange(len(ctrls[k]))
+                    (expr if hr.random() < 0.7 else f2 if k in K2 else expr).select_expression(k, idx)
+                    model[k] = ctrls[k][idx]
+                    trace.append(('select_expression', k, idx))
+                    foreign = True
+                elif kind == 'direct':
+                    k = hr.choice(cnames)
+                    co = ctrl_objs[k]
+                    how = hr.choice(['set_index', 'set_name', 'modify_circular', 'modify_clamped', 'reset_selection'])
+                    if how == 'set_index':
+                        idx = hr.randrange(len(ctrls[k]))
+                        co.set_index(idx)
+                        model[k] = ctrls[k][idx]
+                    elif how == 'set_name':
+                        nm = hr.choice(ctrls[k])
+                        co.set_name(nm)
+                        model[k] = nm
+                    elif how == 'reset_selection':
+                        co.reset_selection()
+                        model[k] = ctrls[k][0]
+                    else:
+                        st = hr.choice([-3, -2, -1, 1, 2, 3])
+                        circ = how == 'modify_circular'
+                        co.modify_controller(step=st, circular=circ)
+                        model[k] = clamp_move(k, model[k], st, circ)
+                    kind = 'direct-' + how
+                    trace.append((kind, k))
+                    foreign = True
+                elif kind == 'operator':
+                    which = hr.choice(['own', 'second-central-controller'])
+                    the_cc = expr.central_controller if which == 'own' else cc2
+                    start = dict(model) if hr.random() < 0.5 else dict(hr.choice(requested + [ids[hr.choice(order)]]))
+                    c0 = Configuration.from_dict(start)
+                    st = hr.randint(1, 2 * maxsize + 1)
+                    ok_ = hr.choice(['increase', 'decrease', 'pair', 'several']) if len(cnames) > 1 else hr.choice(['increase', 'decrease', 'several'])
+                    if ok_ == 'increase':
+                        k = hr.choice(cnames)
+                        res, _ = the_cc.increased_controller(k, c0, st)
+                        want = M.move(ctrls, start, k, st)
+                    elif ok_ == 'decrease':
+                        k = hr.choice(cnames)
+                        res, _ = the_cc.decreased_controller(k, c0, st)
+                        want = M.move(ctrls, start, k, -st)
+                    elif ok_ == 'pair':
+                        k1, k2 = hr.sample(cnames, 2)
+                        dr = hr.choice(['NE', 'NW', 'SE', 'SW'])
+                        res, _ = the_cc.two_controllers(k1, k2, dr, c0, st)
+                        want = M.move(ctrls, start, k1, st if dr[1] == 'E' else -st)
+                        want = M.move(ctrls, want, k2, st if dr[0] == 'N' else -st)
+                    else:
+                        res, _ = the_cc.modify_random_controllers(hr.random() < 0.5, c0, st)
+                        want = None
+                    kind = f'operator-{ok_}-{which}'
+                    trace.append((kind, M.config_id(start), st))
+                    got = as_cfg(res) if isinstance(res, Configuration) else None
+                    rec.c('history_operator_applications')
+                    if got is None or res not in S:
+                        viol(f'history-operator-{ok_}-leaves-the-set-of-configurations', f'{trace} -> {res!r}', trace=trace)
+                        break
+                    if want is not None and got != want:
+                        viol(f'history-operator-{ok_}-returns-wrong-neighbour',
+                             f'after {trace}: operator applied to {M.config_id(start)!r} with step {st} returned '
+                             f'{res.get_string_id()!r}, expected {M.config_id(want)!r}', trace=trace)
+                        break
+                    model = dict(got)
+                    if which == 'own':
+                        last['f1'] = dict(got)
+                    foreign = which != 'own'
+                elif kind == 'failed':
+                    how = hr.choice(['incomplete', 'unknown-controller', 'unknown-alternative'])
+                    bad = dict(ids[hr.choice(order)])
+                    if how == 'incomplete':
+                        for k in hr.sample(cnames, hr.randint(1, len(cnames))):
+                            del bad[k]
+                    elif how == 'unknown-controller':
+                        bad[hr.choice(['zzz_nobody', 'A_nobody', 'm_nobody'])] = 'x'
+                    else:
+                        bad[hr.choice(cnames)] = 'no such alternative'
+                    kind = 'failed-' + how
+                    trace.append((kind, M.config_id(bad)))
+                    try:
+                        expr.configure_catalogs(Configuration.from_dict(bad))
+                        rec.c('history_invalid_configuration_accepted_' + how)
+                    except BiogemeError:
+                        rec.c('history_invalid_configuration_refused')
+                    # what a refused request leaves behind is not specified: the model is re-read from the catalogs
+                    # (Catalog.selected_name, no central controller involved)
+                    st_, raw = observed_state()
+                    if any(v is None or v not in ctrls[k] for k, v in st_.items()):
+                        viol('history-catalogs-of-one-controller-disagree-after-refused-configuration',
+                             f'{ {k: sorted(v) for k, v in raw.items()} }', trace=trace)
+                        break
+                    model = dict(st_)
+                    foreign = True
+                else:
+                    if last['f2'] is not None and hr.random() < 0.4:
+                        t2 = dict(last['f2'])
+                    else:
+                        t2 = {k: hr.choice(ctrls[k]) for k in K2}
+                    f2.configure_catalogs(Configuration.from_dict(t2))
+                    model.update(t2)
+                    last['f2'] = dict(t2)
+                    kind = 'second-formula-configure'
+                    trace.append((kind, M.config_id(t2)))
+                    foreign = True
+            except BaseException as e:  # noqa
+                viol(f'history-step-{kind}-raises-{type(e).__name__}', f'after {trace}: {type(e).__name__}: {e}', trace=trace)
+                break
+            # ---- judge the state after this step
+            rec.c('history_steps')
+            rec.c('history_step_' + kind.split('-')[0])
+            key = M.config_id(model)
+            wrong = [(c['obj'].name, c['obj'].selected_name(), model[c['ctrl']]) for c in cats
+                     if c['obj'].selected_name() != model[c['ctrl']]]
+            rec.ev(len(cats))
+            if wrong:
+                viol('history-catalog-not-at-requested-alternative',
+                     f'after {trace}: (catalog, selected, expected) {wrong[:4]}; expected state {key!r}', trace=trace)
+                break
+            wrong2 = [(c2.name, c2.selected_name(), model[k]) for c2, k in cats2 if c2.selected_name() != model[k]]
+            try:
+                v2 = f2.get_value()
+                e2 = sum((ctrls[k].index(model[k]) + 1) * 10 ** jx for jx, k in enumerate(K2))
+                rec.ev()
+                if wrong2 or abs(v2 - e2) > 1e-9:
+                    viol('history-second-formula-not-at-requested-alternative',
+                         f'after {trace}: {wrong2[:4]}; value {v2} expected {e2}', trace=trace)
+                    break
+            except BaseException as e:  # noqa
+                viol(f'history-second-formula-value-raises-{type(e).__name__}', f'after {trace}: {e}', trace=trace)
+                break
+            if engine_ok:
+                rf = reference_for(key)
+                if rf is not None:
+                    try:
+                        vc = catalog_values(key, override or None)
+                        rec.ev()
+                        rec.c('history_values_compared')
+                        if vc.shape != rf[0].shape or not close(vc, rf[0], rf[1], rf[2]):
+                            viol('history-value-differs-from-handwritten-for-requested-configuration',
+                                 f'after {trace}: value {vc.tolist()} hand-written formula of {key!r}: {rf[0].tolist()}', trace=trace)
+                            break
+                    except BaseException as e:  # noqa
+                        viol(f'history-evaluation-raises-{type(e).__name__}', f'after {trace}: {type(e).__name__}: {e}', trace=trace)
+                        engine_ok = False
+                        break
+            if observe == 'always' or (observe == 'random' and hr.random() < 0.4) or t == L - 1:
+                try:
+                    cur1 = expr.current_configuration().get_string_id()
+                    cur2 = f2.current_configuration().get_string_id()
+                    rec.ev(2)
+                    rec.c('history_current_configuration_read')
+                    if cur1 != key or cur2 != M.config_id({k: model[k] for k in K2}):
+                        viol('history-current-configuration-differs-from-requested',
+                             f'after {trace}: {cur1!r} / {cur2!r}, expected {key!r}', trace=trace)
+                        break
+                except BaseException as e:  # noqa
+                    viol(f'history-current_configuration-raises-{type(e).__name__}', f'after {trace}: {e}', trace=trace)
+                    break
     return rec.out()
 
 
@@ -834,7 +1075,9 @@ def finalize(cov, tier):
             'iterations_run', 'subset_iterations_run', 'from_configuration_runs', 'python_evaluator_compared',
             'operator_kind_increase', 'operator_kind_decrease', 'operator_kind_pair', 'operator_kind_several',
             'inverse_pairs_checked', 'select_expression_calls', 'spaces_above_default_bound', 'controllers_1', 'controllers_2',
-            'controllers_3', 'controllers_4', 'values_compared_at_initial_values']
+            'controllers_3', 'controllers_4', 'values_compared_at_initial_values', 'histories_run', 'history_values_compared',
+            'history_step_configure', 'history_step_select', 'history_step_direct', 'history_step_operator', 'history_step_failed',
+            'history_step_second', 'history_current_configuration_read', 'history_invalid_configuration_refused']
     for k in need:
         if cov.get(k, 0) == 0:
             out.append(f'monitor / structure never observed: {k}')
